@@ -171,7 +171,7 @@ pub fn run(out_dir: &str, tier: &str, seed: u64, only: Option<String>) -> Value 
         let ninstr = prog.instrs.len();
         let do3 = ninstr <= lim3;
         // programs above this size are not enclosed in this tier (oracle only)
-        let enclosed = ninstr <= if full { 6000 } else { 1500 };
+        let enclosed = ninstr <= if full { 3000 } else { 1500 };
         let mut v = emit::header(&["ProgSem", "ProgSemBig", "AD", "BoxBig", "VirialBox"]);
         v.push_str("From FeosProps Require Import C01 C13.\n");
         v.push_str(&prog.emit_coq("P"));
@@ -201,9 +201,14 @@ pub fn run(out_dir: &str, tier: &str, seed: u64, only: Option<String>) -> Value 
             })
             .collect();
         v.push_str(&format!("Definition F_inputs : list (list (Z * Z)) := [{}].\n", rowsf.join(";\n ")));
-        v.push_str(&format!(
-            "Definition F_n := (2 + List.length F_consts)%nat.\nDefinition F_ks := seq 0 F_nouts.\nDefinition F_D2 := tan_outs (tan_outs F_prog F_n F_ks) (2 * F_n) F_ks.\nDefinition F_u (k : nat) : list (Z * Z) := map (fun j => if Nat.eqb j k then (1, 0)%Z else (0, 0)%Z) (seq 0 F_n).\nDefinition F_z : list (Z * Z) := repeat (0, 0)%Z F_n.\nEval vm_compute in (\"SAMEPROG\", \"P\", prog_eqb P_prog F_prog).\nEval vm_compute in (\"F2C\", \"P\", let d := F_D2 in map (fun st => let r := evalIB {prec}%Z d ((st ++ F_u 1) ++ (F_u 1 ++ F_z)) in map (fun j => ib_out (nth j r IB.nai)) F_ks) F_inputs).\n"
-        ));
+        // identical programs (no zero-density branch at all): the per-contribution comparison is vacuous, skip its evaluation
+        let identical = same_as_fd.same_shape && progf.consts.len() == prog.consts.len();
+        v.push_str("Eval vm_compute in (\"SAMEPROG\", \"P\", prog_eqb P_prog F_prog).\n");
+        if !identical {
+            v.push_str(&format!(
+                "Definition F_n := (2 + List.length F_consts)%nat.\nDefinition F_ks := seq 0 F_nouts.\nDefinition F_D2 := tan_outs (tan_outs F_prog F_n F_ks) (2 * F_n) F_ks.\nDefinition F_u (k : nat) : list (Z * Z) := map (fun j => if Nat.eqb j k then (1, 0)%Z else (0, 0)%Z) (seq 0 F_n).\nDefinition F_z : list (Z * Z) := repeat (0, 0)%Z F_n.\nEval vm_compute in (\"F2C\", \"P\", let d := F_D2 in map (fun st => let r := evalIB {prec}%Z d ((st ++ F_u 1) ++ (F_u 1 ++ F_z)) in map (fun j => ib_out (nth j r IB.nai)) F_ks) F_inputs).\n"
+            ));
+        }
         if enclosed {
             std::fs::write(format!("{out_dir}/{}.v", c.name), v).unwrap();
         }
